@@ -8,7 +8,7 @@ Case lines (shared with harness/c10):
   vapply o<k> do_op <op>
   adv <dt>
   sweep
-op syntax (comma separated): co,<fn>,<delay>,<tag> | rmh,<tag> | rmn,<fn> | fh,<tag> | fn,<fn> | rmall |
+op syntax (comma separated): co,<fn>,<delay>,<tag> | cofp,<fn>,<delay>,<tag> | rmh,<tag> | rmn,<fn> | fh,<tag> | fn,<fn> | rmall |
   dest,o<k> | err | info
 -/
 import NV.Common.Proto
@@ -24,7 +24,8 @@ def parseOid (s : String) : Option Nat :=
 
 def parseOp (s : String) : Option Op :=
   match s.splitOn "," with
-  | ["co", f, d, t] => do some (.co (← f.toNat?) (← d.toInt?) t)
+  | ["co", f, d, t] => do some (.co (← f.toNat?) (← d.toInt?) t false)
+  | ["cofp", f, d, t] => do some (.co (← f.toNat?) (← d.toInt?) t true)
   | ["rmh", t] => some (.rmh t)
   | ["rmn", f] => do some (.rmn (← f.toNat?))
   | ["fh", t] => some (.fh t)
@@ -75,13 +76,14 @@ def scriptsOf (p : Parsed) : Scripts := fun o tag =>
 
 def oid (o : Nat) : String := s!"o{o}"
 
-def renderRow (r : Nat × Nat × Int) : String := s!"o{r.1}/co{r.2.1}/{r.2.2}"
+def renderRow (r : Nat × Nat × Int) : String :=
+  if r.2.1 = 0 then s!"o{r.1}/<function>/{r.2.2}" else s!"o{r.1}/co{r.2.1 - 1}/{r.2.2}"
 
 /-- canonical text of an event (exactly what the harness prints) -/
 def render : Ev → String
   | .tickbegin t => s!"{t} tickbegin"
   | .tickend t => s!"{t} tickend"
-  | .co t o f d tag h => s!"{t} r co o{o} {f} {d} {tag} {h}"
+  | .co t o f d tag h fp => s!"{t} r {if fp then "cofp" else "co"} o{o} {f} {d} {tag} {h}"
   | .fire t o f tag => s!"{t} fire o{o} {f} {tag}"
   | .rmh t o tag r => s!"{t} r rmh o{o} {tag} {r}"
   | .fh t o tag r => s!"{t} r fh o{o} {tag} {r}"
@@ -91,6 +93,7 @@ def render : Ev → String
   | .dest t o x => s!"{t} r dest o{o} o{x}"
   | .info t rows => s!"{t} r info{String.join (rows.map fun r => " " ++ renderRow r)}"
   | .err o => s!"err *boom o{o}"
+  | .errFpDead => "err *fp-owner-destructed"
   | .opErr o => s!"r o{o} do_op !err"
   | .opDestructed o => s!"r o{o} do_op !destructed"
   | .setScriptDestructed o => s!"r o{o} set_script !destructed"
@@ -103,7 +106,8 @@ def render : Ev → String
 def parseRow (s : String) : Option (Nat × Nat × Int) :=
   match s.splitOn "/" with
   | [o, f, d] =>
-    if f.startsWith "co" then do some (← parseOid o, ← (f.drop 2).toString.toNat?, ← d.toInt?) else none
+    if f == "<function>" then do some (← parseOid o, 0, ← d.toInt?)
+    else if f.startsWith "co" then do some (← parseOid o, (← (f.drop 2).toString.toNat?) + 1, ← d.toInt?) else none
   | _ => none
 
 /-- one canonical output line -> event (lines that are recognised but whose numbers do not parse become
@@ -114,7 +118,9 @@ def parseEv (line : String) : Ev :=
   | [t, "tickbegin"] => orBad do some (.tickbegin (← t.toInt?))
   | [t, "tickend"] => orBad do some (.tickend (← t.toInt?))
   | [t, "r", "co", o, f, d, tag, h] =>
-    orBad do some (.co (← t.toInt?) (← parseOid o) (← f.toNat?) (← d.toInt?) tag (← h.toInt?))
+    orBad do some (.co (← t.toInt?) (← parseOid o) (← f.toNat?) (← d.toInt?) tag (← h.toInt?) false)
+  | [t, "r", "cofp", o, f, d, tag, h] =>
+    orBad do some (.co (← t.toInt?) (← parseOid o) (← f.toNat?) (← d.toInt?) tag (← h.toInt?) true)
   | [t, "fire", o, f, tag] => orBad do some (.fire (← t.toInt?) (← parseOid o) (← f.toNat?) tag)
   | [t, "r", "rmh", o, tag, r] => orBad do some (.rmh (← t.toInt?) (← parseOid o) tag (← r.toInt?))
   | [t, "r", "fh", o, tag, r] => orBad do some (.fh (← t.toInt?) (← parseOid o) tag (← r.toInt?))
